@@ -313,8 +313,13 @@ LoginPost(h, c, e) ==
             ELSE LoginTail(l.h, c, u, e.rm, TRUE, IF e.redir # NONE THEN "redir" ELSE "loginOK")
 
 \* logout looks the user up only to log the name: whatever that returns is ignored
+\* the shipped router knows GET, POST and DELETE; anything else is answered 405 before any route is looked at
+RouterMethods == {"GET", "POST", "DELETE"}
+MethodNotAllowed(h) == Respond(h, "method405", NONE)
+
 Logout(h, c, e) ==
-  IF ~Has(c, "logout") \/ e.method # c.logoutMethod THEN RouteMissing(h)
+  IF e.method \notin RouterMethods THEN MethodNotAllowed(h)
+  ELSE IF ~Has(c, "logout") \/ e.method # c.logoutMethod THEN RouteMissing(h)
   ELSE LET h0 == IF CurrentUserID(h) # NONE THEN Call(h, "Load", "-") ELSE h
            h1 == DelAllS(h0, WL(c))
            h2 == DelS(DelS(DelS(h1, "uid"), "half"), "lastAct")
@@ -798,12 +803,13 @@ Dispatch(h, c, e) ==
     [] e.act = "EmailVerifyStart" -> EmailVerifyStart(h, c, e)
     [] e.act = "EmailVerifyEnd" -> EmailVerifyEnd(h, c, e)
     [] e.act = "Get"          -> GetPage(h, c, e)
+    [] e.act = "BadMethod"    -> MethodNotAllowed(h)      \* HEAD, PUT, PATCH, OPTIONS ... on any route (e.k)
 
 RequestActs == {"LoginPost", "Logout", "RegisterPost", "ConfirmGet", "RecoverStart",
                 "RecoverEnd", "Probe", "OtpLoginPost", "OtpAdd", "OtpClear", "OAuthStart",
                 "OAuthCallback", "TotpSetup", "TotpSetupGet", "TotpConfirm", "TotpRemove",
                 "TotpValidate", "SmsSetup", "SmsSetupGet", "SmsConfirm", "SmsRemove",
-                "SmsValidate", "RecoveryRegen", "EmailVerifyStart", "EmailVerifyEnd", "Get"}
+                "SmsValidate", "RecoveryRegen", "EmailVerifyStart", "EmailVerifyEnd", "Get", "BadMethod"}
 
 \* global middleware chain in front of every route
 Prelude(S, c, e) ==
